@@ -1059,40 +1059,42 @@ func runT8(p *an.Prog, r *an.Result) {
 	}
 	// per-element defaulting: store into S[i] of defaults[i] under elem == ""
 	defaulted := map[ssa.Value]bool{}
-	an.EachInstr(fn, func(in ssa.Instruction) {
-		st, ok := in.(*ssa.Store)
-		if !ok {
-			return
-		}
-		ia, ok := st.Addr.(*ssa.IndexAddr)
-		if !ok {
-			return
-		}
-		ld, ok := st.Val.(*ssa.UnOp)
-		if !ok {
-			return
-		}
-		src, ok := ld.X.(*ssa.IndexAddr)
-		if !ok || !isDefaults(src.X) || !eqVal(src.Index, ia.Index) {
-			return
-		}
-		// guarded by element == ""
-		for _, g := range an.GuardsAtInstr(st) {
-			if b, ok := g.Cond.(*ssa.BinOp); ok && b.Op == token.EQL && g.True {
-				if s, ok := an.ConstString(b.Y); ok && s == "" {
-					// the element tested is S[i] for the same S and i
-					if u, ok := b.X.(*ssa.UnOp); ok {
-						if eia, ok := u.X.(*ssa.IndexAddr); ok && eia.X == ia.X && eqVal(eia.Index, ia.Index) && isForwardRangeIndex(ia.Index) {
-							defaulted[ia.X] = true
+	for _, uf := range unitWithHelpers(p, fn) {
+		an.EachInstr(uf, func(in ssa.Instruction) {
+			st, ok := in.(*ssa.Store)
+			if !ok {
+				return
+			}
+			ia, ok := st.Addr.(*ssa.IndexAddr)
+			if !ok {
+				return
+			}
+			ld, ok := st.Val.(*ssa.UnOp)
+			if !ok {
+				return
+			}
+			src, ok := ld.X.(*ssa.IndexAddr)
+			if !ok || !isDefaults(src.X) || !eqVal(src.Index, ia.Index) {
+				return
+			}
+			// guarded by element == ""
+			for _, g := range an.GuardsAtInstr(st) {
+				if b, ok := g.Cond.(*ssa.BinOp); ok && b.Op == token.EQL && g.True {
+					if s, ok := an.ConstString(b.Y); ok && s == "" {
+						// the element tested is S[i] for the same S and i
+						if u, ok := b.X.(*ssa.UnOp); ok {
+							if eia, ok := u.X.(*ssa.IndexAddr); ok && eia.X == ia.X && eqVal(eia.Index, ia.Index) && isForwardRangeIndex(ia.Index) {
+								defaulted[ia.X] = true
+							}
 						}
 					}
 				}
 			}
-		}
-	})
+		})
+	}
 	okAll := true
 	var origins []string
-	for _, o := range an.Origins(calls[0].Call.Args[0], an.StepValue) {
+	for _, o := range an.Origins(calls[0].Call.Args[0], stepIP(p)) {
 		switch {
 		case isDefaults(o):
 			origins = append(origins, "the literal defaults")
@@ -1115,7 +1117,7 @@ func runT8(p *an.Prog, r *an.Result) {
 		if ia, ok := in.(*ssa.IndexAddr); ok {
 			if _, isStrSlice := ia.X.Type().Underlying().(*types.Slice); isStrSlice && instrDominates(calls[0], ia) {
 				if bt, ok := ia.X.Type().Underlying().(*types.Slice).Elem().Underlying().(*types.Basic); ok && bt.Kind() == types.String {
-					if ia.X != arg && !isDefaults(ia.X) {
+					if an.Deref(ia.X) != an.Deref(arg) && !isDefaults(ia.X) {
 						r.Bad(name, "a different delimiter list is indexed after defaulting", ia.Pos(), "the scanner must use the defaulted list everywhere")
 					}
 				}
